@@ -195,4 +195,63 @@ theorem dispCall_ok_mem (r : Nat) (s : State) (hr : r < s.heap.length) (hok : (d
     · simp only [hc, Bool.false_eq_true, if_false] at hok
   · exact hmem
 
+/-! ### `clearExch` (the two one-shot pre-selections of an exchange move dropped): what it touches -/
+
+theorem clearExch_inp (s : State) (r : Nat) : (clearExch s r).inp = s.inp := rfl
+theorem clearExch_heap_len (s : State) (r : Nat) : (clearExch s r).heap.length = s.heap.length := by
+  simp [clearExch, State.setObj]
+
+/-- the object of any cell after `clearExch s r`: the old one, with both pre-selections dropped when it is cell `r` -/
+theorem clearExch_obj (s : State) (r r' : Nat) :
+    (clearExch s r).obj r' = if r' = r then { s.obj r with toAdd := none, toDelete := none } else s.obj r' := by
+  by_cases hrr : r' = r
+  · subst hrr
+    simp only [if_true]
+    by_cases h : r' < s.heap.length
+    · exact obj_setObj s r' _ h
+    · simp [clearExch, State.obj, State.setObj, List.getD_eq_getElem?_getD, h]
+  · simp only [hrr, if_false]
+    simp only [clearExch, State.obj, List.getD_eq_getElem?_getD, heap_setObj_ne s r r' _ hrr]
+
+theorem clearExch_obj_labels (s : State) (r r' : Nat) : ((clearExch s r).obj r').labels = (s.obj r').labels := by
+  rw [clearExch_obj]; split
+  · rename_i h; rw [h]
+  · rfl
+
+theorem clearExch_obj_kind (s : State) (r r' : Nat) : ((clearExch s r).obj r').kind = (s.obj r').kind := by
+  rw [clearExch_obj]; split
+  · rename_i h; rw [h]
+  · rfl
+
+theorem clearExch_obj_toDisplace (s : State) (r r' : Nat) :
+    ((clearExch s r).obj r').toDisplace = (s.obj r').toDisplace := by
+  rw [clearExch_obj]; split
+  · rename_i h; rw [h]
+  · rfl
+
+/-- the cleared cell carries no exchange pre-selection -/
+theorem clearExch_cleared (s : State) (r : Nat) :
+    ((clearExch s r).obj r).toAdd = none ∧ ((clearExch s r).obj r).toDelete = none := by
+  rw [clearExch_obj]; simp
+
+/-- a cell that carried no exchange pre-selection still carries none -/
+theorem clearExch_keeps_cleared (s : State) (r r' : Nat)
+    (h : (s.obj r').toAdd = none ∧ (s.obj r').toDelete = none) :
+    ((clearExch s r).obj r').toAdd = none ∧ ((clearExch s r).obj r').toDelete = none := by
+  rw [clearExch_obj]; split
+  · simp
+  · exact h
+
+/-- the head of the deletion loop of `CompositeExchangeMove.__call__`, with labels and inputs read off the state
+    BEFORE the member's pre-selections are dropped (`clearExch` touches neither) -/
+theorem compExchDelLoop_cons (r : Nat) (rs : List Nat) (labs : List Int) (idx : List Nat) (s : State) :
+    compExchDelLoop (r :: rs) labs idx s =
+      if (setdiff (uniqueLabels (s.obj r).labels) labs).isEmpty then compExchDelLoop rs labs idx (clearExch s r)
+      else
+        compExchDelLoop rs (labs ++ [(choice (setdiff (uniqueLabels (s.obj r).labels) labs) 0 s.inp).1])
+          (idx ++ whereEq (s.obj r).labels (choice (setdiff (uniqueLabels (s.obj r).labels) labs) 0 s.inp).1)
+          { clearExch s r with inp := (choice (setdiff (uniqueLabels (s.obj r).labels) labs) 0 s.inp).2 } := by
+  rw [compExchDelLoop]
+  simp only [clearExch_obj_labels, clearExch_inp]
+
 end MM
